@@ -164,6 +164,7 @@ type handlerCall struct {
 	Timeout    time.Duration
 	Returned   bool
 	Err        error
+	DialsAtEnd int // dial attempts seen when the call returned
 }
 
 func (y *Sys) OnDisconnected(*iscp.DisconnectedEvent) {
@@ -202,6 +203,7 @@ func (y *Sys) callFromHandler(what string, timeout time.Duration, f func(ctx con
 	cancel()
 	y.s.mu.Lock()
 	hc.End, hc.Returned, hc.Err = y.s.Now(), true, err
+	hc.DialsAtEnd = y.s.Net.Dials
 	y.s.mu.Unlock()
 }
 
